@@ -251,35 +251,41 @@ def offeredProtocols (r : Req) : List Str :=
 def deflateOffer (cfg : SCfg) (r : Req) : Option (List (Str × Str)) :=
   if cfg.compression then ((parseExtensions r.extensions).find? (fun e => e.1 = pmd)).map (·.2) else none
 
-/-- `WebSocketHandler.get` + `WebSocketProtocol13.accept_connection` -/
+/-- the origin check in `WebSocketHandler.get`: `none` = check_origin raised (500), `some false` = 403 -/
+def originVerdict (bracketOk : Str → Bool) (cfg : SCfg) (r : Req) : Option Bool :=
+  match effectiveOrigin r with
+  | none => some true
+  | some o => if cfg.allowAnyOrigin then some true else checkOriginDefault bracketOk o r.host
+
+def versionOk (r : Req) : Bool :=
+  r.version == some (ofString "7") || r.version == some (ofString "8") || r.version == some (ofString "13")
+
+/-- `WebSocketProtocol13.accept_connection` (`_handle_websocket_headers` + `_accept_connection`) -/
+def acceptConnection (sha1 : Bytes → Bytes) (select : List Str → Option Str) (cfg : SCfg) (r : Req) : Resp :=
+  if !(truthy r.host && truthy r.key && truthy r.version) then .refused 400
+  else if truthy (select (offeredProtocols r)) && !(offeredProtocols r).contains ((select (offeredProtocols r)).getD [])
+  then .refused 500      -- the `assert`
+  else
+    match deflateOffer cfg r with
+    | some params =>
+      if compressorsOk (ofString "server") (ofString "client") params
+      then .accepted (acceptValue sha1 (r.key.getD []))
+             (if truthy (select (offeredProtocols r)) then select (offeredProtocols r) else none)
+             (some (encodeHeader pmd params))
+      else .refused 500
+    | none => .accepted (acceptValue sha1 (r.key.getD []))
+             (if truthy (select (offeredProtocols r)) then select (offeredProtocols r) else none) none
+
+/-- `WebSocketHandler.get` -/
 def serverHandshake (sha1 : Bytes → Bytes) (bracketOk : Str → Bool) (select : List Str → Option Str)
     (cfg : SCfg) (r : Req) : Resp :=
   if lower (r.upgrade.getD []) != websocket then .refused 400
   else if !((splitOn 44 (r.connection.getD [])).map (fun t => lower (strip t))).contains upgradeTok then .refused 400
   else
-    let originVerdict : Option Bool :=
-      match effectiveOrigin r with
-      | none => some true
-      | some o => if cfg.allowAnyOrigin then some true else checkOriginDefault bracketOk o r.host
-    match originVerdict with
+    match originVerdict bracketOk cfg r with
     | none => .refused 500
     | some false => .refused 403
-    | some true =>
-      if !(r.version == some (ofString "7") || r.version == some (ofString "8") || r.version == some (ofString "13"))
-      then .refused 426
-      else if !(truthy r.host && truthy r.key && truthy r.version) then .refused 400
-      else
-        let offered := offeredProtocols r
-        let sel := select offered
-        if truthy sel && !offered.contains (sel.getD []) then .refused 500      -- the `assert`
-        else
-          match deflateOffer cfg r with
-          | some params =>
-            if compressorsOk (ofString "server") (ofString "client") params
-            then .accepted (acceptValue sha1 (r.key.getD [])) (if truthy sel then sel else none)
-                   (some (encodeHeader pmd params))
-            else .refused 500
-          | none => .accepted (acceptValue sha1 (r.key.getD [])) (if truthy sel then sel else none) none
+    | some true => if !versionOk r then .refused 426 else acceptConnection sha1 select cfg r
 
 /-! ### the client -/
 
